@@ -23,6 +23,13 @@ import numpy as np
 from vp.core import fd
 from vp.core.alphabet import weyl, generic_quat
 
+# import the library in the parent process / worker initialiser, never inside a case: a case timeout (SIGALRM)
+# that fires in the middle of a lazy first import leaves half-initialised modules behind in that worker
+import cardillo  # noqa: F401,E402
+import cardillo.contacts  # noqa: F401,E402
+import cardillo.discrete  # noqa: F401,E402
+import cardillo.solver  # noqa: F401,E402
+
 ID = "C06"
 LEVEL = "model_checking"
 RULE = (
@@ -46,7 +53,7 @@ ASSUMPTIONS = [
     "assembled with compute_consistent_initial_conditions=False (C16 covers the initial solve)",
 ]
 MIN_NONTRIVIAL = 100
-CASE_TIMEOUT = 240
+CASE_TIMEOUT = 900
 H_FLOW = 3e-4  # stencil step along the flow (|direction| is O(1..5): q_dot, u_dot), coarser one is h/2
 
 REPO = os.path.abspath(os.environ.get("VERIF_REPO", "/repo"))
